@@ -26,6 +26,10 @@ async def coro(q):
         async for s in r:
             await s
     return [t async for t in q]
+async def agen(n):
+    for i in range(n):
+        yield i
+        await n
 class K:
     attr = 1
     def meth(self, y):
@@ -73,6 +77,8 @@ def main():
             "source": "a = [b for b in range(3)]\nprint(a)\n", "classmethod": ns["K"].cm}
     co = ns["coro"](None)
     objs["coroutine"] = co
+    objs["async-generator-function"] = ns["agen"]
+    objs["async-generator"] = ns["agen"](2)
     out = {"host": "%d.%d" % sys.version_info[:2], "evaluations": 0, "diffs": []}
     hv = sys.version_info[:2]
     tables = dict(opmap=dis.opmap, opname=dis.opname, hasconst=dis.hasconst, hasname=dis.hasname, hasjrel=dis.hasjrel, hasjabs=dis.hasjabs,
@@ -128,7 +134,7 @@ def main():
                         out["diffs"].append({"what": "argval of %s" % p.opname, "obj": "%s@%d" % (kind, p.offset), "dis": x1[:100], "xdis": x2[:100]})
                         break
         for fn in ("findlabels", "findlinestarts"):
-            code = x if hasattr(x, "co_code") else getattr(x, "__code__", None) or getattr(getattr(x, "__func__", None), "__code__", None) or getattr(x, "gi_code", None) or getattr(x, "cr_code", None)
+            code = x if hasattr(x, "co_code") else getattr(x, "__code__", None) or getattr(getattr(x, "__func__", None), "__code__", None) or getattr(x, "gi_code", None) or getattr(x, "cr_code", None) or getattr(x, "ag_code", None)
             if code is None:
                 continue
             out["evaluations"] += 1
